@@ -154,6 +154,8 @@ def exScript : Script :=
                   .set (.var .glob "zLast".toList) (.bin .add (.var .glob "counter".toList) (.var .glob "gTotal".toList)),
                   .set (.var .loc "w".toList) (.bin .add (.key "mouseH".toList) (.bin .add (.the .sys 0x1b [])
                       (.bin .add (.the .special 0 []) (.movie "frameLabel".toList)))),
+                  .set (.var .loc "q".toList) (.list [.the .sprite 13 [.int 3], .the .cast 1 [.var .loc "z".toList], .the .sound 1 [.int 2],
+                      .the .video 13 [.str "clip".toList]]),
                   .call "beep".toList [],
                   .exit ] } ] }
 
@@ -171,7 +173,7 @@ example : ∃ c, compile {} exScript = .ok c ∧ NamesOk c := by
 
 /-- the text the theorem predicts for the example (also the output of the real decompiler on the compiled chunks) -/
 example : String.ofList (mText exScript) =
-    "property score\nglobal gTotal\n\non startUp a, b\n    set x = ((a - (gTotal - 1)) * -(b + 70000))\n    set score = not (x <= 300)\n    set gTotal = sprite 1 within (x + 2)\nend\n\non finish\n    global counter\n    global zLast\n\n    set y = (score & (0 mod 129))\n    set z = max(field 3, [1, y, []])\n    startUp z, startUp(1, 2)\n    alert \"Hi there!\", #warn, (\"a\" && z)\n    set zLast = (counter + gTotal)\n    set w = (the mouseH + (the stageColor + (the floatPrecision + the frameLabel)))\n    beep\n    exit\nend\n" := by
+    "property score\nglobal gTotal\n\non startUp a, b\n    set x = ((a - (gTotal - 1)) * -(b + 70000))\n    set score = not (x <= 300)\n    set gTotal = sprite 1 within (x + 2)\nend\n\non finish\n    global counter\n    global zLast\n\n    set y = (score & (0 mod 129))\n    set z = max(field 3, [1, y, []])\n    startUp z, startUp(1, 2)\n    alert \"Hi there!\", #warn, (\"a\" && z)\n    set zLast = (counter + gTotal)\n    set w = (the mouseH + (the stageColor + (the floatPrecision + the frameLabel)))\n    set q = [the locH of sprite 3, the name of cast z, the volume of sound 2, the duration of cast \"clip\"]\n    beep\n    exit\nend\n" := by
   decide +kernel
 
 /-! ### non-vacuity, structured -/
